@@ -7,7 +7,6 @@ import (
 	"time"
 
 	"verif/harness/internal/core"
-	"verif/harness/internal/tlc"
 )
 
 func generateAllB(c *core.Ctx, vars []variant, base string, perVariant, n int) []*runB {
@@ -135,7 +134,7 @@ func judgeB(c *core.Ctx, rn *runner, vars []variant, runs []*runB) error {
 			}
 			recs = append(recs, r.Events...)
 		}
-		tf, err := c.ValidateTrace("TraceKV", "TraceKV.cfg", recs, core.Timeout(15*time.Minute), core.Heap(4000), traceOpt("TraceKV.cfg"))
+		tf, err := c.ValidateTrace("TraceKV", "TraceKV.cfg", recs, core.Timeout(15*time.Minute), core.Heap(4000))
 		if err != nil {
 			return fmt.Errorf("TraceKV: %v", err)
 		}
@@ -156,7 +155,7 @@ func judgeB(c *core.Ctx, rn *runner, vars []variant, runs []*runB) error {
 			if !c.Thorough() {
 				return nil
 			}
-			if tf2, err := c.ValidateTrace("TraceKV", "TraceKV_lead.cfg", recs, core.Timeout(15*time.Minute), core.Heap(4000), traceOpt("TraceKV.cfg")); err == nil && tf2 != nil && tf2.Invariant == "EmptyNotNil" {
+			if tf2, err := c.ValidateTrace("TraceKV", "TraceKV_lead.cfg", recs, core.Timeout(15*time.Minute), core.Heap(4000)); err == nil && tf2 != nil && tf2.Invariant == "EmptyNotNil" {
 				c.Extra("lead_empty_value_returned_as_nil", fmt.Sprintf("event %d of the concatenated engine-B trace", tf2.Line-1))
 			}
 			return nil
@@ -189,7 +188,7 @@ func judgeB(c *core.Ctx, rn *runner, vars []variant, runs []*runB) error {
 				r2 := generateB(*v, dirFor(rn, v), embByName(r.Emb), r.Seed, r.N, r.BatchEx, 3*time.Minute)
 				repro := false
 				if r2.Panic == "" && !r2.Hang {
-					tf2, err := c.ValidateTrace("TraceKV", "TraceKV.cfg", r2.Events, core.Timeout(10*time.Minute), core.Heap(4000), traceOpt("TraceKV.cfg"))
+					tf2, err := c.ValidateTrace("TraceKV", "TraceKV.cfg", r2.Events, core.Timeout(10*time.Minute), core.Heap(4000))
 					if err != nil {
 						return err
 					}
@@ -226,12 +225,3 @@ func dirFor(rn *runner, v *variant) string {
 	return mkdir(rn.base, int(2000000+n))
 }
 
-// traceOpt: TraceKV EXTENDS KVStore, which lives in spec/; run from the whole
-// spec tree with the cfg addressed as trace/<cfg> so that the runner copies
-// spec/*.tla next to the trace spec.
-func traceOpt(cfg string) core.TLCOpt {
-	return func(o *tlc.Opts) {
-		o.SpecDir = core.VerifRoot + "/spec"
-		o.Config = "trace/" + cfg
-	}
-}
